@@ -49,6 +49,9 @@ type Thread struct {
 	gen       int
 	lastSite  string
 	panicTrace string
+	yields    int
+	eager     bool    // unnamed helper goroutine: runs at once whenever it can, never a decision
+	resumeTo  *Thread // eager: who gets the baton back when this thread blocks or ends
 }
 
 // Decision is one recorded choice.
@@ -72,10 +75,12 @@ type Violation struct {
 	Harness string            `json:"harness"`
 }
 
+// SchedStep is one segment of a schedule: Thread runs until it stops in the way Stop says.
 type SchedStep struct {
 	Thread string `json:"t"`
-	Site   string `json:"site"`
-	Kind   string `json:"k"` // run | crash
+	Stop   string `json:"stop"` // yield (pre-empted at its N-th yield) | block | end | crash | free
+	Site   string `json:"site,omitempty"`
+	N      int    `json:"n,omitempty"`
 }
 
 // Exec is one execution (one path).
@@ -105,6 +110,7 @@ type Exec struct {
 	crashed      bool
 	gen          int
 	concreteOnly bool
+	concreteOnlyInit bool
 
 	inputs     map[string]*sym.Term // named symbolic inputs created on this path
 	inputOrder []string
@@ -257,9 +263,37 @@ func (ex *Exec) panicMessage(th *Thread, v Value) string {
 // spawn creates a runnable thread for `go fn(args)`.
 func (ex *Exec) spawn(fn Value, args []Value, name string) *Thread {
 	th := ex.newThread(name)
+	th.eager = name == ""
 	ex.wg.Add(1)
 	go ex.threadMain(th, fn, args, false)
+	if th.eager && ex.cur != nil && !ex.concreteOnlyInit {
+		ex.runEager(ex.cur, th)
+	}
 	return th
+}
+
+// runEager hands the baton to an eager thread and returns when it blocks or ends.
+func (ex *Exec) runEager(cur, e *Thread) {
+	if e.state != tsRunnable || e == cur {
+		return
+	}
+	e.resumeTo = cur
+	ex.cur = e
+	e.wake <- struct{}{}
+	cur.park()
+}
+
+// drainEager runs every runnable eager thread (made runnable by cur's last action).
+func (ex *Exec) drainEager(cur *Thread) {
+	for again := true; again; {
+		again = false
+		for _, t := range ex.threads {
+			if t.eager && t.state == tsRunnable && t != cur {
+				ex.runEager(cur, t)
+				again = true
+			}
+		}
+	}
 }
 
 func (ex *Exec) runnable(except *Thread) []*Thread {
@@ -275,7 +309,36 @@ func (ex *Exec) runnable(except *Thread) []*Thread {
 // reschedule is called by cur when it blocks, ends or is pre-empted; it returns when cur
 // is scheduled again (never, if cur is done).
 func (ex *Exec) reschedule(cur *Thread, why string) {
-	cands := ex.runnable(nil)
+	if cur.eager && cur.resumeTo != nil {
+		// an eager helper gives the baton back to whoever let it run
+		back := cur.resumeTo
+		cur.resumeTo = nil
+		ex.cur = back
+		back.wake <- struct{}{}
+		if cur.state != tsDone {
+			cur.park()
+		}
+		return
+	}
+	stop := "block"
+	if cur.state == tsDone {
+		stop = "end"
+	}
+	ex.schedLog = append(ex.schedLog, SchedStep{Thread: cur.name, Stop: stop})
+	var cands []*Thread
+	for _, t := range ex.runnable(nil) {
+		if t.eager {
+			// should have been drained; run it now
+			ex.runEager(cur, t)
+			continue
+		}
+		cands = append(cands, t)
+	}
+	if cur.state == tsRunnable {
+		// cur was woken while eager helpers ran (e.g. its own send was received)
+		ex.schedLog = ex.schedLog[:len(ex.schedLog)-1]
+		return
+	}
 	if len(cands) == 0 {
 		// quiescence: wake a thread waiting for it
 		for _, t := range ex.threads {
@@ -309,7 +372,6 @@ func (ex *Exec) switchTo(cur, next *Thread) {
 		return
 	}
 	ex.cur = next
-	ex.schedLog = append(ex.schedLog, SchedStep{Thread: next.name, Site: next.lastSite, Kind: "run"})
 	next.wake <- struct{}{}
 	if cur.state != tsDone {
 		cur.park()
@@ -333,10 +395,16 @@ func (th *Thread) makeRunnable() {
 func (th *Thread) yield(site string) {
 	ex := th.ex
 	th.lastSite = site
-	if ex.concreteOnly {
+	if ex.concreteOnly || th.eager {
 		return
 	}
-	others := ex.runnable(th)
+	th.yields++
+	var others []*Thread
+	for _, t := range ex.runnable(th) {
+		if !t.eager {
+			others = append(others, t)
+		}
+	}
 	nAlt := 1
 	canPreempt := len(others) > 0 && ex.preemptions < ex.cfg.Preemptions
 	if canPreempt {
@@ -359,6 +427,7 @@ func (th *Thread) yield(site string) {
 		return
 	}
 	ex.preemptions++
+	ex.schedLog = append(ex.schedLog, SchedStep{Thread: th.name, Stop: "yield", Site: site, N: th.yields})
 	ex.switchTo(th, others[c-1])
 }
 
@@ -366,7 +435,7 @@ func (th *Thread) yield(site string) {
 func (ex *Exec) doCrash(cur *Thread, site string) {
 	ex.crashed = true
 	ex.gen++
-	ex.schedLog = append(ex.schedLog, SchedStep{Thread: cur.name, Site: site, Kind: "crash"})
+	ex.schedLog = append(ex.schedLog, SchedStep{Thread: cur.name, Stop: "crash", Site: site, N: cur.yields})
 	var main *Thread
 	for _, t := range ex.threads {
 		if t.id == 0 {
@@ -528,6 +597,9 @@ func (ex *Exec) recordViolation(kind, label, msg string, extra ...*sym.Term) boo
 	}
 	v.Trace = append([]Decision(nil), ex.trace...)
 	v.Sched = append([]SchedStep(nil), ex.schedLog...)
+	if ex.cur != nil && len(v.Sched) > 0 {
+		v.Sched = append(v.Sched, SchedStep{Thread: ex.cur.name, Stop: "free"})
+	}
 	ex.violations = append(ex.violations, v)
 	return true
 }
@@ -586,6 +658,7 @@ func (th *Thread) chanSend(ch *Chan, v Value) {
 		}
 		w.val, w.ok, w.fired = v, true, true
 		w.th.makeRunnable()
+		th.ex.drainEager(th)
 		return
 	}
 	if len(ch.buf) < ch.cap {
@@ -674,6 +747,7 @@ func (th *Thread) chanRecv(ch *Chan) (Value, bool) {
 		panic(engineAbort{OutDeadlock, "receive on nil channel"})
 	}
 	if v, ok, done := ch.tryRecv(); done {
+		th.ex.drainEager(th)
 		if !ok {
 			return th.ex.in.zero(ch.elem), false
 		}
@@ -719,6 +793,7 @@ func (th *Thread) chanClose(ch *Chan) {
 		w.th.makeRunnable()
 	}
 	ch.sendq = nil
+	th.ex.drainEager(th)
 }
 
 func (th *Thread) selectOp(fr *frame, instr *ssa.Select) Value {
@@ -925,6 +1000,7 @@ type PathResult struct {
 	Inputs     []string
 	Witness    map[string]string
 	Notes      []string
+	Sched      []SchedStep
 	PCSize     int
 }
 
@@ -947,8 +1023,11 @@ func (in *Interp) runPath(cfg Config, solver *smt.Solver, fn *ssa.Function, args
 		Steps: ex.steps, Asserts: ex.asserts, AssertsSym: ex.assertsSym, Stubs: ex.stubs,
 		Inputs: ex.inputOrder, PCSize: len(ex.pc),
 	}
-	if wantWitness && (ex.outcome == OutOK) && len(ex.inputs) > 0 {
+	if wantWitness && (ex.outcome == OutOK) {
 		if r, m := solver.CheckModel(); r == smt.Sat {
+			if len(ex.schedLog) > 0 {
+				res.Sched = append(append([]SchedStep(nil), ex.schedLog...), SchedStep{Thread: "main", Stop: "free"})
+			}
 			res.Witness = modelToStrings(m)
 			for _, n := range ex.notes {
 				res.Notes = append(res.Notes, evalNote(n, m))
